@@ -3,6 +3,7 @@
    The tokeniser for the format-string subset (the counterpart of value/timescanner for the
    modelled directives) lives here and is validated by the stream like the rest of the model. *)
 open C22_Civil
+open C22_Zone
 
 let z = Zio.z_of_string
 let zs = Zio.string_of_z
@@ -54,12 +55,69 @@ let tokenize (f : string) : tok list =
   in
   go 0 []
 
+(* DateTime format strings: the date directives above plus %H %M %S (- _) %L %N %9N %T %R %z %:z *)
+let ztokenize (f : string) : ztok list =
+  let n = String.length f in
+  let rec go i acc =
+    if i >= n then List.rev acc
+    else if f.[i] = '%' then begin
+      if i + 1 >= n then raise Unmodelled;
+      let time p c =
+        match c with 'H' -> Some (ZHour p) | 'M' -> Some (ZMin p) | 'S' -> Some (ZSec p) | _ -> None
+      in
+      let date j = (* one date directive starting at i, ending before j *)
+        match tokenize (String.sub f i (j - i)) with [t] -> ZD t | _ -> raise Unmodelled
+      in
+      let c1 = f.[i + 1] in
+      let c2 = if i + 2 < n then f.[i + 2] else ' ' in
+      match c1 with
+      | ('-' | '_') -> (
+          if i + 2 >= n then raise Unmodelled;
+          match time (if c1 = '-' then PNone else PSpace) c2 with
+          | Some t -> go (i + 3) (t :: acc)
+          | None -> go (i + 3) (date (i + 3) :: acc))
+      | 'L' -> go (i + 2) (ZMilli :: acc)
+      | 'N' -> go (i + 2) (ZNano :: acc)
+      | '9' when c2 = 'N' -> go (i + 3) (ZNano :: acc)
+      | 'T' -> go (i + 2) (ZT :: acc)
+      | 'R' -> go (i + 2) (ZR :: acc)
+      | 'z' -> go (i + 2) (ZOff false :: acc)
+      | ':' when c2 = 'z' -> go (i + 3) (ZOff true :: acc)
+      | _ -> (
+          match time PZero c1 with
+          | Some t -> go (i + 2) (t :: acc)
+          | None -> go (i + 2) (date (i + 2) :: acc))
+    end
+    else begin
+      let j = ref i in
+      while !j < n && f.[!j] <> '%' do incr j done;
+      go !j (ZD (TText (str_to_model (String.sub f i (!j - i)))) :: acc)
+    end
+  in
+  go 0 []
+
+let show_z (t : zdt) =
+  String.concat " " (List.map zs [t.zy; t.zm; t.zd; t.zH; t.zM; t.zS; t.zns; t.zoff; instant t])
+
 let show3 ((y, m), d) = zs y ^ " " ^ zs m ^ " " ^ zs d
 let show_bits b = show3 (unpack b)
 let show_span (m, d) = zs m ^ " " ^ zs d
 
 let show_parse = function
   | Datatypes.Coq_inr b -> "ok " ^ show_bits b
+  | Datatypes.Coq_inl EFormat -> "err"
+  | Datatypes.Coq_inl ENeedsNow -> "skip"
+
+let dt_at (f : string array) k =
+  mk_dt (z f.(k)) (z f.(k + 1)) (z f.(k + 2)) (z f.(k + 3)) (z f.(k + 4)) (z f.(k + 5)) (z f.(k + 6)) (z f.(k + 7))
+
+let z0 = Zio.z_of_int 0
+
+let show_zparse r orig =
+  match r with
+  | Datatypes.Coq_inr t -> (
+      "ok " ^ show_z t
+      ^ match orig with None -> "" | Some o -> if zs (zcmp t o) = "0" then " eq" else " ne")
   | Datatypes.Coq_inl EFormat -> "err"
   | Datatypes.Coq_inl ENeedsNow -> "skip"
 
@@ -85,6 +143,17 @@ let run (f : string array) : string =
         let toks = tokenize (unhex f.(5)) in
         show_parse (parse toks (format toks (pack (i 2) (i 3) (i 4))))
       with Unmodelled -> "skip")
+  | "zmk" -> show_z (dt_at f 1)
+  | "zfmt" -> "ok " ^ enhex (model_to_str (zformat (ztokenize (unhex f.(9))) (dt_at f 1)))
+  | "zparse" -> show_zparse (zparse (ztokenize (unhex f.(1))) (str_to_model (unhex f.(2)))) None
+  | "zrt" ->
+      let toks = ztokenize (unhex f.(9)) in
+      let t = dt_at f 1 in
+      show_zparse (zparse toks (zformat toks t)) (Some t)
+  | "zcmp" -> zs (zcmp (dt_at f 1) (dt_at f 9))
+  | "zin" -> show_z (in_zone (dt_at f 1) (i 9))
+  | "zaddt" -> show_z (add_time (dt_at f 1) (i 9))
+  | "zaddd" -> show_z (add_date (dt_at f 1) (make_span Zio.(z_of_int 0) (i 9) (i 10)))
   | _ -> "skip"
 
 let () =
